@@ -193,7 +193,7 @@ fn main() {
         scale_pct,
     };
     guard::install_panic_hook();
-    let per_call_limit = std::env::var("VERIF_CALL_LIMIT_S").ok().and_then(|s| s.parse().ok()).unwrap_or(20u64);
+    let per_call_limit = std::env::var("VERIF_CALL_LIMIT_S").ok().and_then(|s| s.parse().ok()).unwrap_or(45u64);
     if !cfg!(miri) {
         guard::start_watchdog(Duration::from_secs(per_call_limit), Some(hang_path));
     }
@@ -235,6 +235,7 @@ fn main() {
     let out_json = format!("{}/shard-{}.json", out_dir, shard);
     let out_fps = format!("{}/shard-{}.fps", out_dir, shard);
     ctx.report.note("wall_s", ctx.started.elapsed().as_secs_f64());
+    ctx.report.hist_max("max.observed_call_us", guard::max_call_us());
     if let Err(e) = ctx.report.write(&out_json, &out_fps) {
         eprintln!("cannot write report: {e}");
         std::process::exit(2);
